@@ -1,5 +1,5 @@
 """Confirm a seeded change (tests pass, demo fails with / passes without), run our check against it, and keep it
-under /verif/seeded/<id>/ with meta.json.   usage: seedkeep.py <PROP> <k> <worktree> [--tier quick] [--check PROPS]"""
+under /verif/seeded/<id>/ with meta.json.   usage: seedkeep.py <PROP> <k> <worktree> [--tier quick] [--check PROPS] [--offset N]  (kept as <PROP>-<k+N>)"""
 import json, os, shutil, subprocess, sys
 
 prop, k, wt = sys.argv[1], sys.argv[2], sys.argv[3]
@@ -39,7 +39,8 @@ try:
         print(c, p.returncode, kinds[:2])
 finally:
     subprocess.run('git -C /repo checkout -- .', shell=True)
-dst = f'/verif/seeded/{prop}-{k}'
+off = int(sys.argv[sys.argv.index('--offset') + 1]) if '--offset' in sys.argv else 0
+dst = f'/verif/seeded/{prop}-{int(k) + off}'
 os.makedirs(dst, exist_ok=True)
 shutil.copy(diff, os.path.join(dst, 'patch.diff'))
 shutil.copy(demo, os.path.join(dst, 'demo.py'))
